@@ -32,15 +32,24 @@ RULE = ('(a) round trips: random dtype (incl. structured, big-endian, bool, comp
         'written in several parts (equal or different chunk layouts, offsets) and/or mirrored to two stores / two array names '
         'by ONE dask.compute call and read back (whole, part by part, indexed) by one compute call; (i) reads that do not match '
         'what is stored (another dtype, merged / split chunk grid, chunks never written) with errors=<number> and errors=raise: '
-        'only MISSING chunks may be replaced by the default value. A case is non-trivial when it stores at least two chunks / has a non-empty '
-        'selection / actually splits a dimension / has an underscore in the bucket / has a non-C layout of a >= 2 x 2 array / puts at least two graphs; distinct by its '
+        'only MISSING chunks may be replaced by the default value; (j) 2-4 arrays with near-colliding names (\'_\' / \'-\' variants, '
+        'prefixes of each other, names with \'/\', characters that need quoting, upper / lower case, names that look like chunk ids / '
+        'markers) written into ONE store (put_chunk / put_dask_array, one array or one chunk rewritten, markers) and read back '
+        '(get_chunk, is_complete, get_dask_array) on Dict / NPY / S3 with the S3 store URL in both modes (bare endpoint with the '
+        'bucket in the names incl. two buckets, or bucket and key prefix in the store URL, with / without trailing slash), the '
+        'endpoint\'s key set compared with the documented names; a 6 % stream of ill-formed names (empty / dot components: '
+        'finding C07-F7); round trips (a) and sequences (c) on S3 also use both URL modes. A case is non-trivial when it stores at least two chunks / has a non-empty '
+        'selection / actually splits a dimension / has an underscore in the bucket / has a non-C layout of a >= 2 x 2 array / puts at least two graphs / names at least two arrays; distinct by its '
         'canonical input')
 ASSUMPTIONS = ['dask merges the graphs handed to one compute call by task name (modelled: of several requests with the same '
                'name only the first is evaluated); two RecS3 stores would share the one loopback endpoint, so at most one S3 '
                'store takes part in a multi-store case',
                'dask assembles blocks by position and culls blocks outside a slice (modelled: element p comes from the '
                'block containing p; an empty selection still takes block 0 of each axis)',
-               'numpy .npy encoding/decoding and urllib/requests URL handling are exercised, not modelled',
+               'numpy .npy encoding/decoding and requests / urllib3 / urlsplit / geturl are exercised, not modelled; quote, the '
+               'path merge of urljoin and the percent-decoding of the endpoint are modelled for ASCII names (Model/ChunksUrl.v)',
+               'the loopback endpoint keys its objects by the percent-decoded request path and takes the first path component '
+               'as the bucket (path-style addressing), like the S3 service the store is written for',
                'generate_chunks: equality with the exact-arithmetic model is demanded only where the float64 '
                'computation is decision-exact; the chunks_ok relation is demanded always',
                'DictChunkStore is addressed by slices not names: its keys are not compared, and negative offsets are '
@@ -1525,6 +1534,7 @@ NM_FAMILIES = [
     ['x/00000', 'x/00000_00000', 'x', 'x/0', 'x_0', 'x-0', 'x/00000.npy', 'x.npy'],
     ['flags', 'flags_', 'flag_s', 'flag-s', 'flags/0', 'flags-', 'flags.x', 'flags~'],
     ['1_2/3_4', '1-2/3_4', '1_2/3-4', '1_2_3_4', '1-2-3-4', '1_2', '1-2/3-4'],
+    ['Vis', 'vis', 'VIS', 'vis/X', 'vis/x', 'Vis_1', 'vis_1', 'vis-1', 'Vis-1'],
 ]
 NM_SPECIAL = ['w c', 'w%20c', 'w+c', 'w%2Fc', 'w#c', 'w?c', 'w:c', 'w;c', 'w@c', 'w&c=d', 'w%c', 'w%5Fc', 'w~c', 'w,c', "w'c"]
 NM_ILLFORMED = [('a//b', 'a/b'), ('a/./b', 'a/b'), ('c/../a/b', 'a/b'), ('./a', 'a'), ('a/b/', 'a/b'), ('a/b/.', 'a/b')]
